@@ -184,14 +184,17 @@ class Source:
         m1 = re.compile(start_re, re.M).search(body)
         if not m1:
             raise ExtractError('slice anchor lost: %s /%s/' % (self.rel, start_re))
-        m2 = re.compile(end_re, re.M).search(body, m1.start())
-        if not m2:
-            raise ExtractError('slice anchor lost: %s /%s/' % (self.rel, end_re))
         s0 = body.rfind('\n', 0, m1.start()) + 1
-        # end of the statement that starts on m2's line
-        e0 = body.find('\n', m2.end() - 1)
-        if e0 < 0:
-            e0 = len(body)
+        if end_re is None:
+            e0 = len(body.rstrip())     # through the end of the function body
+        else:
+            m2 = re.compile(end_re, re.M).search(body, m1.start())
+            if not m2:
+                raise ExtractError('slice anchor lost: %s /%s/' % (self.rel, end_re))
+            # end of the statement that starts on m2's line
+            e0 = body.find('\n', m2.end() - 1)
+            if e0 < 0:
+                e0 = len(body)
         seg = body[s0:e0]
         # balance check: the slice must be a whole number of statements at one nesting level
         depth = 0
@@ -217,6 +220,27 @@ class Source:
         item.sha256 = hashlib.sha256(seg.encode()).hexdigest()
         item._log('R6', 'slice of fn %s, lines %d-%d, wrapped as `%s`' % (
             fn_name, self._line_of(o + 1 + s0), self._line_of(o + 1 + e0), ' '.join(header.split())[:80]))
+        return item
+
+    def block_slice(self, open_re, header, name):
+        """R6 (block form): the statements of the block opened at the end of the line matching open_re
+        (e.g. a match arm `Self::Subshell(..) => {`), wrapped as `header { <bytes> }`."""
+        ms = list(re.compile(open_re, re.M).finditer(self.text))
+        if len(ms) != 1:
+            raise ExtractError('slice anchor %s: %s /%s/ (%d matches)' % ('lost' if not ms else 'ambiguous', self.rel, open_re, len(ms)))
+        m = ms[0]
+        le = self.text.find('\n', m.end() - 1)
+        o = self.text.rfind('{', m.start(), le)
+        if o < 0:
+            raise ExtractError('slice anchor /%s/ does not open a block' % open_re)
+        e = match_brace(self.text, o)
+        seg = self.text[o + 1:e - 1].strip('\n').rstrip()
+        ind = len(re.match(r'[ \t]*', seg).group(0))
+        txt = '\n'.join((l[ind - 4:] if l.startswith(' ' * (ind - 4)) else l) for l in seg.split('\n')) if ind >= 4 else indent(seg, 4 - ind)
+        item = Item(name, self.rel, self._line_of(o + 1), header + ' {\n' + txt + '\n}')
+        item.orig = seg
+        item.sha256 = hashlib.sha256(seg.encode()).hexdigest()
+        item._log('R6', 'block slice at /%s/ (line %d), wrapped as `%s`' % (open_re[:40], self._line_of(o), ' '.join(header.split())[:80]))
         return item
 
     def has(self, regex):
